@@ -25,9 +25,11 @@ ASSUMPTIONS = [
     "the copier header applies to IPS output only (the SFC writer has no such shift in the property)",
     "the working directory is the same for both sides; a third of the front-end runs name the source as proj/src/t.s with a decoy of every "
     "referenced file next to it (quoted paths are resolved as for the in-memory API, which has no source directory)",
+    "a quarter of the front-end runs read the source and its included files saved with CR LF line ends (what an editor on Windows writes): the same "
+    "program as the LF text handed to the in-memory API",
 ]
 MAPPINGS = ["low", "low2", "high"]
-DEFINES = [[], ["DEFA=5"], ["DEFA=0x1234"], ["DEFA=7", "DEFB=0x20", "DEFC=0"]]
+DEFINES = [[], ["DEFA=5"], ["DEFA=0x1234"], ["DEFA=7", "DEFB=DEFA+0x19", "DEFC=0"]]
 WEIGHTS = dict(ins=6, data=5, label=4, block=1.5, scope=1, macro=0.8, call=1.5, for_=1, if_=0.6, assign=1, sym=0.8, org=1.2, reloc=0.3, ascii=0.6, incbin=0.4, branch=0.0, include=0.5)
 
 
@@ -79,7 +81,12 @@ def gen_program(rng: random.Random, mapping: str, big: bool = False) -> dict:
 
 
 def parse_defs(defs: list[str]) -> dict[str, int]:
-    return {d.split("=")[0]: int(d.split("=")[1], 0) for d in defs}
+    """-D NAME=VALUE in order; a VALUE may be an expression over the names defined before it."""
+    out: dict[str, int] = {}
+    for d in defs:
+        name, value = d.split("=", 1)
+        out[name] = int(eval(value, {"__builtins__": {}}, dict(out)))       # noqa: S307 - the strings are the constants of DEFINES below
+    return out
 
 
 SYM_LINE = re.compile(r"^\s*([0-9a-fA-F]+):\s*([0-9a-fA-F]+) (\S+)$")
@@ -112,7 +119,7 @@ def check_symbols(res: Res, fr, labels: list, wit: dict) -> None:
 def check_point(res: Res, p: dict, fmt: str, mapping: str, copier: bool, defs: list[str], front: str, layout: str | None = None) -> None:
     src, files = materialise(p)
     if layout is None:
-        layout = "subdir" if (len(src) + len(front)) % 3 == 0 else "cwd"
+        layout = ("subdir", "cwd", "crlf", "cwd")[(len(src) + len(front)) % 4]
     dvals = parse_defs(defs)
     prefix = "".join(f"{k} := {v}\n" for k, v in dvals.items())
     ref = assemble(prefix + src, files=files or None, rom=mapping)
